@@ -175,7 +175,14 @@ func GenValue(v reflect.Value, r *Rng, o GenOpts, tag reflect.StructTag) {
 		}
 		v.Set(m)
 	case reflect.Pointer:
-		if r.P(1, 3) {
+		// A nil pointer (at any level) to a slice or map has no encoding in
+		// this library: such chains are generated non-nil.
+		end := t
+		for end.Kind() == reflect.Pointer {
+			end = end.Elem()
+		}
+		mustNonNil := (end.Kind() == reflect.Slice && end.Elem().Kind() != reflect.Uint8) || end.Kind() == reflect.Map
+		if !mustNonNil && r.P(1, 3) {
 			return
 		}
 		p := reflect.New(t.Elem())
